@@ -396,3 +396,38 @@ package rapid
 //@   ensures [C04] implies(rec.persist, forall(k, 0, len(rec.groups), k == i || rec.groups[k].begin == old(rec.groups[k].begin) && rec.groups[k].end == old(rec.groups[k].end) && rec.groups[k].discard == old(rec.groups[k].discard)))
 //@   panics string [C04]: !discard && implies(!rec.persist, rec.dataLen <= i) && implies(rec.persist, len(rec.data) <= rec.groups[i].begin)
 //@   modifies elems(rec.groups)
+
+// ---------------------------------------------------------------------------------------------
+// engine.go: *T
+
+//@ define unlocked(t) = lockmode[addr(t.mu)] == 0
+
+//@ func (*T).shouldLog
+//@   ensures result == (t.rawLog != nil || t.tbLog)
+
+//@ func (*T).Logf
+//@ func (*T).Log
+
+//@ func (*T).fail
+//@   requires [C14] unlocked(t)
+//@   ensures [C02,C14] t.failed != ""
+//@   ensures [C02] !now && t.failed == stopTest(msg)
+//@   ensures [C14] unlocked(t)
+//@   panics stopTest [C02,C14]: now && t.failed != "" && strOf(panicval) == t.failed && unlocked(t)
+//@   modifies t.failed, lockmode[addr(t.mu)]
+
+//@ func (*T).failOnError
+//@   requires [C14] unlocked(t)
+//@   ensures [C02] t.failed == ""
+//@   ensures [C14] unlocked(t)
+//@   panics stopTest [C02,C14]: t.failed != "" && strOf(panicval) == t.failed && unlocked(t)
+//@   modifies lockmode[addr(t.mu)]
+
+//@ func (*T).skip
+//@   ensures false
+//@   panics invalidData [C02]: true
+
+//@ func (*T).Failed
+//@   requires [C14] unlocked(t)
+//@   ensures [C02,C14] result == (t.failed != "") && unlocked(t)
+//@   modifies lockmode[addr(t.mu)]
